@@ -213,9 +213,17 @@ func (m *maxInflightWrapper) SetLimit(acquireResult *AcquireResult) bool {
 		atomic.StoreInt32(&m.acquiredMaxInflight, limit)
 		m.FlowControl.Resize(uint32(limit), 0)
 	} else {
+		// never trust the answered threshold beyond the configured global limit
+		limit := result.Limit
+		if limit > m.max {
+			limit = m.max
+		}
+		if limit < 0 {
+			limit = 0
+		}
 		atomic.StoreInt32(&m.overLimited, 1)
-		atomic.StoreInt32(&m.acquiredMaxInflight, result.Limit)
-		m.FlowControl.Resize(uint32(result.Limit), 0)
+		atomic.StoreInt32(&m.acquiredMaxInflight, limit)
+		m.FlowControl.Resize(uint32(limit), 0)
 	}
 
 	atomic.StoreInt64(&m.lastAcquireTime, acquireResult.requestTime)
